@@ -187,6 +187,41 @@ def rule_pure(ctx):
     exec_calls = [c for c in calls if c.func.attr == "execute" and isinstance(c.func.value, ast.Name) and c.func.value.id == "self"]
     ok = bool(exec_calls)
     ctx.ob("C06.c", "describe() executes a DESCRIBE of the command", ok, prog.mod("cursor").loc(fnd))
+    # describe(q, <params>) binds the caller's parameters however they were passed (positionally or as params=...)
+    from ..execmodel import FullHooks
+    from ..values import Tup
+
+    n_d = 0
+    for how in ("positional", "keyword"):
+        PARAMS = Tup([Sym("P1")])
+        hooks_d = []
+
+        def fac_d():
+            h = FullHooks(None, "SELECT")
+            hooks_d.append(h)
+            return h
+
+        def run_d(I, how=how, PARAMS=PARAMS):
+            duck, conn, cur = make_session()
+            conn.attrs[R().paramstyle] = Const("qmark")
+            cmd = Sym("COMMAND", typ="str", truthy=True)
+            if how == "positional":
+                return I.call(I.getattr(cur, "describe"), [cmd, PARAMS], {}, None)
+            return I.call(I.getattr(cur, "describe"), [cmd], {"params": PARAMS}, None)
+
+        for p, h in zip(explore(prog, fac_d, run_d, max_paths=64), hooks_d):
+            if not h.parsed or not h.calls:
+                continue
+            n_d += 1
+            got = h.calls[0][1]
+            okp = got is PARAMS
+            ctx.ob("C06.c", f"describe(q, params) [{how}]: the DESCRIBE runs with the caller's parameters", okp, prog.mod("cursor").loc(fnd), tagof(got))
+            if not okp:
+                ctx.violation("C06.c", "cursor", "FakeSnowflakeCursor.describe", f"parameters passed by {how} are not bound", prog.mod("cursor").loc(fnd),
+                              f"describe(command, {'params' if how == 'positional' else 'params=params'}) runs its DESCRIBE with `{tagof(got)}` instead of "
+                              f"the caller's parameters: a parameterised query cannot be described (the engine refuses the unbound placeholders)")
+            break
+    ctx.floor("C06.c describe() parameter paths", n_d, 2)
 
 
 # ---------------------------------------------------------------------- C06.d
